@@ -198,3 +198,59 @@ package pdf
 //@   loop 1: invariant refof(res) == 0 || refof(res) > \top0
 //@   loop 1: invariant forall j in offof(res)..offof(res)+len(res) :: raw(res)[j] == nmByte(s.src.stream, nmPos(s.src.stream, old(apos(s)) + 1 - s.P0, j - offof(res))) && !nmStop(s.src.stream, nmPos(s.src.stream, old(apos(s)) + 1 - s.P0, j - offof(res)))
 //@   loop 1: decreases avail(s)
+
+// ---- writing names (7.3.5): every byte outside '!'..'~', every delimiter and '#' is written as #xx ----
+//@ spec func nameFunny(c int) bool = !isRegular(c) || c < 33 || c > 126 || c == '#'
+//@ spec func nameW(c int) int = nameFunny(c) ? 3 : 1
+//@ spec rec func nameEncLen(l seq, k int) int = k <= 0 ? 0 : nameEncLen(l, k-1) + nameW(l[k-1])
+//@ spec func nameEncAt(o seq, p int, c int) bool = nameFunny(c) ? (o[p] == '#' && o[p+1] == hexLow(c / 16) && o[p+2] == hexLow(c % 16)) : o[p] == c
+//@ spec rec func cntFunny(l seq, k int) int = k <= 0 ? 0 : cntFunny(l, k-1) + (nameFunny(l[k-1]) ? 1 : 0)
+
+//@ lemma cntMono(l seq, a int, b int)
+//@   tags C01 C15
+//@   induct b
+//@   requires 0 <= a && a <= b
+//@   ensures cntFunny(l, a) <= cntFunny(l, b)
+//@   ensures cntFunny(l, a) == cntFunny(l, b) ==> forall j in a..b :: !nameFunny(l[j])
+
+//@ lemma cleanRun(l seq, a int, b int)
+//@   tags C01 C15
+//@   induct b
+//@   requires 0 <= a && a <= b && forall m in a..b :: !nameFunny(l[m])
+//@   ensures forall j in a..b+1 :: nameEncLen(l, j) == nameEncLen(l, a) + (j - a)
+
+//@ func formatName (w, name) (err)
+//@   tags C01 C15
+//@   requires w != nil
+//@   assigns w.log
+//@   ensures forall i in 0..old(len(w.log)) :: w.log[i] == old(w.log[i])
+//@   ensures err == nil ==> len(w.log) == old(len(w.log)) + 1 + nameEncLen(name, len(name)) && w.log[old(len(w.log))] == '/'
+//@   ensures err == nil ==> forall j in 0..len(name) :: nameEncAt(w.log, old(len(w.log)) + 1 + nameEncLen(name, j), name[j])
+//@   loop 1: invariant len(funny) == cntFunny(l, \done) && (refof(funny) == 0 || refof(funny) > \top0)
+//@   loop 1: invariant forall j in offof(funny)..offof(funny)+len(funny) :: 0 <= raw(funny)[j] && raw(funny)[j] < \done && nameFunny(l[raw(funny)[j]]) && cntFunny(l, raw(funny)[j]) == j - offof(funny)
+//@   loop 1: invariant forall j in offof(funny)+1..offof(funny)+len(funny) :: raw(funny)[j-1] < raw(funny)[j]
+//@   loop 2: invariant pos == (\done == 0 ? 0 : funny[\done - 1] + 1) && 0 <= pos && pos <= n && cntFunny(l, pos) == \done
+//@   loop 2: invariant len(w.log) == old(len(w.log)) + 1 + nameEncLen(l, pos) && w.log[old(len(w.log))] == '/' && len(w.log) > old(len(w.log)) && nameEncLen(l, pos) >= 0
+//@   loop 2: invariant forall i in 0..old(len(w.log)) :: w.log[i] == old(w.log[i])
+//@   loop 2: invariant forall j in 0..pos :: nameEncAt(w.log, old(len(w.log)) + 1 + nameEncLen(l, j), l[j]) && 0 <= nameEncLen(l, j) && nameEncLen(l, j) + nameW(l[j]) <= nameEncLen(l, pos)
+//@   loop 2: apply cntMono(l, pos, funny[\done])
+//@   loop 2: apply cleanRun(l, pos, funny[\done])
+//@   loop 2: apply cntMono(l, pos, n)
+//@   loop 2: apply cleanRun(l, pos, n)
+
+// ---- round trip of names at the level of the two specifications: what formatName's
+// postcondition describes, ReadName's postcondition decodes to the original bytes ----
+//@ lemma encMono(l seq, a int, b int)
+//@   tags C01 C15
+//@   induct b
+//@   requires 0 <= a && a <= b
+//@   ensures nameEncLen(l, a) + (b - a) <= nameEncLen(l, b)
+
+//@ lemma nameRoundTrip(l seq, o seq, k int)
+//@   tags C01 C15
+//@   induct k
+//@   requires forall j in 0..len(l) :: nameEncAt(o, nameEncLen(l, j), l[j]) && 0 <= l[j] && l[j] <= 255
+//@   requires forall j in 0..len(l) :: nameEncLen(l, j) + nameW(l[j]) <= len(o) && 0 <= nameEncLen(l, j)
+//@   requires 0 <= k && k <= len(l)
+//@   ensures nmPos(o, 0, k) == nameEncLen(l, k)
+//@   ensures k < len(l) ==> nmByte(o, nameEncLen(l, k)) == l[k] && !nmStop(o, nameEncLen(l, k))
